@@ -153,6 +153,29 @@ def cases_for(tier, rng):
                 prog = wrap([Try([bad], [([], [T('E:'), V('error_type')])], None), T('|'), again]) + [T('|'), V('x')]
                 cases.append(dict(prog=prog, src=sources(kw=dict(nsx, x=plain('outer-x'), o=obj('O', q=plain('Q')))), K=0, fk=[],
                                   svn=svn_table()))
+    # the body raises while an element is pushed (at the first, a middle, the last element), an enclosing try handles it: nothing
+    # the tag bound -- the element, the loop variables, the cached sequence, prefixed aliases -- is visible afterwards
+    def bomb_elem(kind, i, armed):
+        extra = {'bomb': plain('B')} if armed else {}
+        if kind == 'obj':
+            return obj('E%d' % i, x=plain('x1', o=1), **extra)
+        if kind == 'map':
+            return mp('E%d' % i, x=plain('x1', o=1), **extra)
+        return pair(plain('key%d' % i, o=i), obj('E%d' % i, x=plain('x1', o=1), **extra))
+    for kind in ('obj', 'map', 'pair'):
+        for n in (1, 3):
+            for at in sorted({0, n // 2, n - 1}):
+                items = [bomb_elem(kind, i, i == at) for i in range(n)]
+                for opts in (dict(), dict(pre=True), dict(start=1, size=n), dict(reverse=True)):
+                    if kind == 'map':
+                        opts = dict(opts, mapping=True)
+                    boom = [T('('), V('sequence-index'), If([(N('bomb'), [Raise('KeyError', [T('boom')])])]), T(')')]
+                    after = [T('|x='), V('x'), T('|'), Vx(HasKey('sequence-item')), Vx(HasKey('sequence-index')),
+                             Vx(HasKey('p_number')), Vx(HasKey('bomb'))]
+                    for ref, nsx in ((N('seq'), {'seq': lst('S', items)}), (X('seq'), {'seq': lst('S', items)}),
+                                     (N('fs'), {'fs': fn('FSB', lst('S', items))})):
+                        prog = [Try([In(ref, boom, **opts), T('not-reached')], [([], [T('caught:'), V('error_type')] + after)], None)] + after
+                        cases.append(dict(prog=prog, src=sources(kw=dict(nsx, x=plain('outer-x'))), K=0, fk=[], svn=svn_table()))
     # None is an element like any other (every pattern of None / string elements, every container)
     for n in range(1, 5):
         for pat in itertools.product((False, True), repeat=n):
